@@ -130,6 +130,8 @@ struct Item {
 	probes: Vec<Arc<ProbeShared>>,
 	/// index of the track this item lives in (nested tracks / track sounds)
 	parent_item: Option<(usize, usize)>,
+	/// a track is not removed before every track below it has been picked up
+	removal_floor: u64,
 }
 
 enum Res {
@@ -151,7 +153,7 @@ impl Item {
 	fn removed_at(&self) -> u64 {
 		match self.gone_gap {
 			None => u64::MAX,
-			Some(d) => d.max(self.first_cb + 1),
+			Some(d) => d.max(self.first_cb + 1).max(self.removal_floor),
 		}
 	}
 }
@@ -334,6 +336,7 @@ fn run_ops(case: &Case, caps: &[usize; 7], ops: &[ROp]) -> CaseResult {
 							handle: Some(h),
 							probes: new_probes,
 							parent_item: parent,
+							removal_floor: 0,
 						});
 					}
 					None => {
@@ -373,9 +376,25 @@ fn run_ops(case: &Case, caps: &[usize; 7], ops: &[ROp]) -> CaseResult {
 					}
 					q += 1;
 				}
+				// every track below (whatever the state of its handle) that the audio thread has
+				// not picked up yet keeps its ancestors for one more callback
+				fn floor_of(arenas: &[Arena], a: usize, i: usize, cb: u64) -> u64 {
+					let mut f = arenas[a].items[i].first_cb + 1;
+					if let Some(na) = arenas[a].items[i].owns.get(1).copied() {
+						for ci in 0..arenas[na].items.len() {
+							if arenas[na].items[ci].removed_at() > cb {
+								f = f.max(floor_of(arenas, na, ci, cb));
+							}
+						}
+					}
+					f
+				}
 				for (da, di) in order.iter().rev() {
-					arenas[*da].items[*di].handle = None;
-					arenas[*da].items[*di].gone_gap = Some(cb);
+					let floor = floor_of(&arenas, *da, *di, cb);
+					let it = &mut arenas[*da].items[*di];
+					it.handle = None;
+					it.gone_gap = Some(cb);
+					it.removal_floor = floor;
 				}
 			}
 			ROp::Finish(k, sel) => {
